@@ -47,6 +47,7 @@ type visoCaseJ struct {
 	Reopen   int      `json:"reopen,omitempty"`   // C18: open the image this many more times and compare (masked) with the first
 	SleepMs  int      `json:"sleepMs,omitempty"`  // C18: pause before the re-opens
 	Parallel bool     `json:"parallel,omitempty"` // C18: do the re-opens concurrently
+	Between  []string `json:"between,omitempty"`  // C18: before every re-open, open, read and close an image of this other directory (and of Dir in the other mode)
 }
 
 type visoScriptJ struct {
@@ -170,6 +171,11 @@ func runVisoCase(c *visoCaseJ, em *emitter, index int) error {
 	announced := st.Size()
 	var canon []byte
 	var cerr error
+	var firstVol map[string]interface{}
+	if c.Decode {
+		// decode the very first instance: whatever an earlier image left behind in recycled memory shows here
+		firstVol = decodeVolume(ref, announced, reg, c.Ps3)
+	}
 	if !c.NoCanon {
 		canon, cerr = sequentialImage(ref, announced+(64<<20))
 	}
@@ -221,17 +227,18 @@ func runVisoCase(c *visoCaseJ, em *emitter, index int) error {
 		return nil
 	}
 	if c.Decode {
+		tf := treeFacts(filepath.Join(append([]string{w.root}, c.Dir...)...), w)
+		em.emit(map[string]interface{}{"ev": "Volume", "name": c.Name, "ps3": c.Ps3, "titleId": c.TitleID, "vol": firstVol, "tree": tf})
 		g, err := open()
 		if err != nil {
 			return err
 		}
 		vol := decodeVolume(g, announced, reg, c.Ps3)
 		g.Close()
-		em.emit(map[string]interface{}{"ev": "Volume", "name": c.Name, "ps3": c.Ps3, "titleId": c.TitleID, "vol": vol,
-			"tree": treeFacts(filepath.Join(append([]string{w.root}, c.Dir...)...), w)})
+		em.emit(map[string]interface{}{"ev": "Volume", "name": c.Name, "ps3": c.Ps3, "titleId": c.TitleID, "vol": vol, "tree": tf})
 	}
 	if c.Reopen > 0 {
-		if err := reopenCompare(c, open, canon, announced, em); err != nil {
+		if err := reopenCompare(c, open, canon, announced, em, w.root); err != nil {
 			return err
 		}
 	}
@@ -244,6 +251,7 @@ func runVisoCase(c *visoCaseJ, em *emitter, index int) error {
 		}
 		return pos(t)
 	}
+	last := int64(0) // cursor as last observed; positional reads are not followed by a Seek (no observer effect)
 	for i, op := range c.Ops {
 		if f == nil || c.Fresh {
 			if f != nil {
@@ -253,8 +261,9 @@ func runVisoCase(c *visoCaseJ, em *emitter, index int) error {
 			if err != nil {
 				return err
 			}
+			last = 0
 		}
-		before := unpos(tellOf())
+		before := last
 		r := map[string]interface{}{"ev": "Op", "i": i, "op": op.Op, "n": op.N, "off": pos(op.Off), "whence": op.Whence,
 			"k": 0, "err": "nil", "at": pos(0), "match": false, "ret": pos(0), "before": pos(before), "fresh": c.Fresh}
 		func() {
@@ -286,7 +295,13 @@ func runVisoCase(c *visoCaseJ, em *emitter, index int) error {
 			f = nil // the object may be in any state now
 			continue
 		}
-		r["tell"] = tellOf()
+		if op.Op == "readat" {
+			r["tell"] = pos(last)
+		} else {
+			t := tellOf()
+			r["tell"] = t
+			last = unpos(t)
+		}
 		em.emit(r)
 	}
 	if f != nil {
@@ -357,7 +372,7 @@ func nameFacts(n string) map[string]interface{} {
 // reopenCompare (C18): further opens of the same unchanged directory must give
 // an image of the same size whose bytes differ from the first only inside the
 // documented variable fields.
-func reopenCompare(c *visoCaseJ, open func() (fileLike, error), first []byte, announced int64, em *emitter) error {
+func reopenCompare(c *visoCaseJ, open func() (fileLike, error), first []byte, announced int64, em *emitter, root string) error {
 	if c.SleepMs > 0 {
 		time.Sleep(time.Duration(c.SleepMs) * time.Millisecond)
 	}
@@ -369,6 +384,21 @@ func reopenCompare(c *visoCaseJ, open func() (fileLike, error), first []byte, an
 	}
 	results := make([]res, c.Reopen)
 	one := func(i int) {
+		if len(c.Between) > 0 {
+			// somebody else's image in between (another directory; the same directory in the other mode)
+			o := *c
+			o.Dir = c.Between
+			if g, err := openViso(root, &o); err == nil {
+				sequentialImage(g, 1<<30)
+				g.Close()
+			}
+			o = *c
+			o.Ps3 = !c.Ps3
+			if g, err := openViso(root, &o); err == nil {
+				sequentialImage(g, 1<<30)
+				g.Close()
+			}
+		}
 		f, err := open()
 		if err != nil {
 			results[i].err = err.Error()
